@@ -115,7 +115,7 @@ func c23(x *ctx) {
 			case "in-method":
 				// a top-level local is not visible inside the method: rebuild the receiver there
 				expr := recv
-				if e, ok := map[string]string{"ua": "Animal.new", "up": "Puppy.new", "uh": "Holder.new", "uk": "Nsp::Kid.new", "ui": "Nsp::Inc.new"}[recv]; ok {
+				if e, ok := map[string]string{"ua": "Animal.new", "up": "Puppy.new", "uh": "Holder.new", "uk": "Nsp::Kid.new", "ui": "Nsp::Inc.new", "uv": "Visq.new", "uw": "Visr.new"}[recv]; ok {
 					expr = e
 				} else if recv == "rv" {
 					continue
@@ -159,6 +159,13 @@ func c23(x *ctx) {
 	mk(nsDefs+"uh = Holder.new\n", "uh", map[string]bool{"own_h": true, "m_two": true, "m_one": true}, union(map[string]bool{"own_h": true, "m_two": true, "m_one": true}, objKernel), map[string]bool{"base_m": true, "kid_m": true, "inc_m": true}, "user-instance:Holder")
 	mk(nsDefs+"uk = Nsp::Kid.new\n", "uk", map[string]bool{"kid_m": true, "base_m": true}, union(map[string]bool{"kid_m": true, "base_m": true}, objKernel), map[string]bool{"own_h": true, "inc_m": true, "m_two": true}, "user-instance:NspKid")
 	mk(nsDefs+"ui = Nsp::Inc.new\n", "ui", map[string]bool{"inc_m": true, "m_one": true}, union(map[string]bool{"inc_m": true, "m_one": true}, objKernel), map[string]bool{"own_h": true, "kid_m": true, "base_m": true}, "user-instance:NspInc")
+	// visibility sections around `class << self`: the class body is private when the block opens, the block has
+	// its own private section, and instance methods follow the block (still private)
+	visDefs := "class Visq\n  def bark\n    1\n  end\n\n  private\n\n  def hid_one\n    1\n  end\n\n  class << self\n    def build\n      Visq.new\n    end\n\n    private\n\n    def hid_c\n      1\n    end\n  end\n\n  def after_block\n    2\n  end\nend\n" +
+		"class Visr\n  class << self\n    private\n\n    def hid_d\n      1\n    end\n  end\n\n  def open_after\n    3\n  end\nend\n"
+	mk(visDefs+"uv = Visq.new\n", "uv", union(map[string]bool{"bark": true}, objKernel), union(map[string]bool{"bark": true}, objKernel), map[string]bool{"hid_one": true, "after_block": true, "hid_c": true, "build": true}, "user-instance:Visq")
+	mk(visDefs, "Visq", map[string]bool{"build": true, "new": true}, union(map[string]bool{"build": true, "new": true}, objKernel), map[string]bool{"hid_c": true, "bark": true, "after_block": true, "hid_one": true}, "user-class:Visq")
+	mk(visDefs+"uw = Visr.new\n", "uw", union(map[string]bool{"open_after": true}, objKernel), union(map[string]bool{"open_after": true}, objKernel), map[string]bool{"hid_d": true}, "user-instance:Visr")
 	cases := make([]*engine.Case, len(progs))
 	for i, p := range progs {
 		cases[i] = &engine.Case{Cfg: "core", Files: map[string]string{"t.rb": p.src}, Argv: []string{"t.rb", "--suggest", fmt.Sprintf("--row=%d", p.row)}}
